@@ -210,6 +210,26 @@ ShadowHeader(g, m1, ue) == {
   Once \o "local " \o g \o " = " \o m1 \o " for " \o g \o " in once(" \o ue \o ") do ext1(0) end",
   Once \o "for " \o g \o " in once(" \o ue \o "), once(" \o ue \o ") do ext1(0) end ext1(" \o ue \o ")",
   Once \o "for " \o g \o " = 1, 0 do ext1(0) end for k in once(" \o ue \o ") do end" }
+\* ... and a use reached WITHOUT any statement between the binding and the use: the value of a `return` that directly
+\* follows the binding (function parameters, loop variables and `local` are bound after the enclosing statement was seen)
+ShadowReturn(g, m1, ue) == {
+  "local function h(" \o g \o ") return " \o ue \o " end ext1(h(" \o m1 \o "))",
+  "local h = function(" \o g \o ") return " \o ue \o " end ext1(h(" \o m1 \o "))",
+  "local h h = function(" \o g \o ", ...) return " \o ue \o ", ... end ext1(h(" \o m1 \o ", 5))",
+  "local o = {} function o.m(" \o g \o ") return " \o ue \o " end ext1(o.m(" \o m1 \o "))",
+  "local " \o g \o " = " \o m1 \o " return " \o ue,
+  "local " \o g \o " = " \o m1 \o " return (function() return " \o ue \o " end)()",
+  "local " \o g \o " = " \o m1 \o " local h = function() return " \o ue \o " end ext1(h())",
+  "for " \o g \o " = 1, 1 do return " \o ue \o " end",
+  "local function h(a) return function(" \o g \o ") return " \o ue \o " end end ext1(h(1)(" \o m1 \o "))",
+  "do local " \o g \o " = " \o m1 \o " end return " \o ue,
+  "local function h(" \o g \o ") return 1 end return " \o ue }
+FloorMock == "{floor = function(x) ext1(\"mock\", x) return 7 end}"
+FloorMock2 == "{floor = function(x) return 8 end}"
+TostrMock == "function(x) ext1(\"mock\", x) return \"m\" end"
+TostrMock2 == "function(x) return \"n\" end"
+StringMock == "{format = function(...) ext1(\"mock\", ...) return \"m\" end}"
+StringMock2 == "{format = function(...) return \"n\" end}"
 MathMock == "{sqrt = function(x) ext1(x) return 7 end}"
 MathMock2 == "{sqrt = function(x) return 8 end}"
 AssertMock == "function(...) ext1(\"mock\", ...) return 9 end"
@@ -219,7 +239,12 @@ DebugMock2 == "{profilebegin = function() end, profileend = function() end}"
 GMock == "{INJ = ext1(7), assert = function(...) ext1(\"mock\", ...) end}"
 GMock2 == "{INJ = 8, assert = function() end}"
 ShadowShapes(group) ==
-  IF group = "c16" THEN Shadow("math", MathMock, MathMock2, "ext1(math.sqrt(16))") \cup ShadowHeader("math", MathMock, "math.sqrt(16)")
+  IF group = "c06" THEN
+         Shadow("math", FloorMock, FloorMock2, "ext1(7 // 2)") \cup ShadowHeader("math", FloorMock, "7 // 2") \cup ShadowReturn("math", FloorMock, "7 // 2")
+    \cup Shadow("tostring", TostrMock, TostrMock2, "ext1(`a{ext1(1)}b`)") \cup ShadowHeader("tostring", TostrMock, "`a{1}b`") \cup ShadowReturn("tostring", TostrMock, "`a{1}b`")
+    \cup Shadow("string", StringMock, StringMock2, "ext1(`a{ext1(1)}b`)") \cup ShadowHeader("string", StringMock, "`a{1}b`") \cup ShadowReturn("string", StringMock, "`a{1}b`")
+  ELSE IF group = "c16" THEN Shadow("math", MathMock, MathMock2, "ext1(math.sqrt(16))") \cup ShadowHeader("math", MathMock, "math.sqrt(16)")
+    \cup ShadowReturn("math", MathMock, "math.sqrt(16)")
   ELSE IF group = "c17" THEN
          Shadow("assert", AssertMock, AssertMock2, "assert(extf(), ext1(2))")
     \cup Shadow("debug", DebugMock, DebugMock2, "debug.profilebegin(ext1(1)) debug.profileend()")
@@ -230,6 +255,8 @@ ShadowShapes(group) ==
     \cup Shadow("_G", GMock, GMock2, "ext1(_G[\"INJ\"])")
     \cup ShadowHeader("assert", AssertMock, "assert(extf(), 3)") \cup ShadowHeader("INJ", "ext1(7)", "INJ") \cup ShadowHeader("INJ", "ext1(7)", "_G.INJ")
     \cup ShadowHeader("_G", GMock, "_G.INJ") \cup ShadowHeader("_G", GMock, "_G[\"INJ\"]")
+    \cup ShadowReturn("assert", AssertMock, "assert(extf(), 3)") \cup ShadowReturn("INJ", "ext1(7)", "INJ") \cup ShadowReturn("INJ", "ext1(7)", "_G.INJ")
+    \cup ShadowReturn("_G", GMock, "_G.INJ")
     \cup Shadow("_G", GMock, GMock2, "_G.assert(ext1(3))")     \* aliases of the global are outside the rule: the argument is truthy
   ELSE {}
 
@@ -257,13 +284,14 @@ Family(name, tier) ==
     [] name = "ifexpr"   -> IfExprs(tier)
     [] name = "scope"    -> ScopeShapes(tier)
     [] name = "blocks"   -> NestedBlocks(tier)
+    [] name = "shadow06" -> ShadowShapes("c06")
     [] name = "shadow16" -> ShadowShapes("c16")
     [] name = "shadow17" -> ShadowShapes("c17")
     [] OTHER -> {}
 \* which families belong to which group of properties (the rules of the group act on these shapes)
 FamiliesOf(group) ==
   CASE group = "c01" -> {"unused", "ifexpr", "scope", "blocks"}  \* default rules: unused variables, static evaluation of if-expressions, scope tracking
-    [] group = "c06" -> {"compound", "ifexpr"}         \* lowering rules
+    [] group = "c06" -> {"compound", "ifexpr", "shadow06"}         \* lowering rules
     [] group = "c16" -> {"unused", "method", "scope", "shadow16"}  \* group_local_assignment, remove_nil_declaration, remove_method_call, local function conversions
     [] group = "c17" -> {"removed", "shadow17"}                    \* remove_assertions, remove_debug_profiling
     [] OTHER -> {}
